@@ -176,6 +176,9 @@ func sacramento(rainfall, pet data.ND1Float64,
 			//      if( uztwm+lztwm > tiny(uztwm) ) then
 			e3 = math.Min((evapt-e1-e2)*lwrTensionWater/(uztwm+lztwm), lwrTensionWater)
 			e5 = math.Min(e1+(evapt-e1-e2)*(additionalImperviousStore-e1-uprTensionWater)/(uztwm+lztwm), additionalImperviousStore)
+			if e5 < 0 {
+				e5 = 0
+			}
 		}
 
 		//     Compute the transpiration loss from the lower zone tension
